@@ -22,6 +22,18 @@ def out_of_scope_exception(P, cls: str) -> bool:
     return "DeviceError" in chain or cls in ("GscribError", "BodyError", "OSError", "IOError")
 
 
+ENCODING_ERRORS = ("UnicodeEncodeError", "UnicodeDecodeError")
+
+
+def out_of_scope_path(P, path) -> bool:
+    """Like out_of_scope_exception, for a whole path: the I/O wrapper GscribError is in scope when what it
+    wraps is the library's own failure to encode the line (not a writer's I/O failure)."""
+    cls = path.value.cls
+    if cls == "GscribError" and any(e.kind == "RAISE" and e.data.get("exc") in ENCODING_ERRORS for e in path.trace):
+        return False
+    return out_of_scope_exception(P, cls)
+
+
 class Statement:
     """One line handed to the writers: provenance parts of the text."""
 
